@@ -1,5 +1,5 @@
-(* DdlIndex.v - CREATE INDEX: on the fragment where the names printed bare need no quoting, the
-   statement names exactly the given index, table, columns and options *)
+(* DdlIndex.v - CREATE INDEX: on the fragment where the column names (the only names still printed
+   bare) need no quoting, the statement names exactly the given index, table, columns and options *)
 From Coq Require Import Lia.
 From PV Require Import Base gen.C17Table Ddl lemmas.DdlStrings lemmas.DdlItems.
 
@@ -21,19 +21,8 @@ Lemma iname_text_facts : forall i, iname_ok i = true ->
         read_any (iname_text i ++ rest) = Some (match i with INStr s | INObj s => s end, rest))
   /\ (forall rest, stops rest = true -> strip_prefix "IF NOT EXISTS " (iname_text i ++ rest) = None).
 Proof.
-  intros [s|s] H; unfold iname_ok in H; unfold iname_text.
-  - apply Bool.andb_true_iff in H as [H1 H2]. split.
-    + intros rest Hr. unfold read_any.
-      assert (Hd : starts_dq (s ++ rest) = false).
-      { destruct s as [|a r]; [discriminate|]. simpl in H1. apply Bool.andb_true_iff in H1 as [H1 _].
-        simpl. apply idchar_namechar in H1. apply (namechar_not _ """"%char) in H1; [|tauto].
-        unfold notc in H1. destruct (Ascii.eqb a """"); [discriminate | reflexivity]. }
-      rewrite Hd. rewrite <- (fqq_none s) at 1. now apply read_name_fq.
-    + intros rest Hr. rewrite <- (fqq_none s). change "IF NOT EXISTS " with ("IF" ++ String " " "NOT EXISTS ").
-      apply name_not_kw; try reflexivity; auto. intros _. now destruct (kw_free_neq _ H2).
-  - split.
-    + intros rest Hr. now apply read_any_fq.
-    + intros rest Hr. rewrite fqq_double. reflexivity.
+  intros [s|s] H; unfold iname_ok in H; unfold iname_text; split; intros rest Hr;
+    try (now apply read_any_fq); rewrite fqq_double; reflexivity.
 Qed.
 
 Definition itable_tbl (t : itable) : table := match t with ITObj t => t | ITStr s => mk_table s None end.
@@ -42,12 +31,8 @@ Lemma itable_text_facts : forall t rest, itable_ok t = true ->
   read_table_any (itable_text t ++ String "(" rest) = Some (itable_tbl t, String "(" rest).
 Proof.
   intros [s|[n [sc|]]] rest H; unfold itable_ok in H; unfold itable_text, itable_tbl.
-  - unfold read_table_any, read_any.
-    assert (Hd : starts_dq (s ++ String "(" rest) = false).
-    { pose proof H as H'. destruct s as [|a r]; [discriminate|]. simpl in H'. apply Bool.andb_true_iff in H' as [H' _].
-      simpl. apply idchar_namechar in H'. apply (namechar_not _ """"%char) in H'; [|tauto].
-      unfold notc in H'. destruct (Ascii.eqb a """"); [discriminate | reflexivity]. }
-    rewrite Hd. rewrite <- (fqq_none s) at 1. rewrite read_name_fq by (auto; reflexivity). reflexivity.
+  - apply Bool.andb_true_iff in H as [H _].
+    unfold read_table_any. rewrite read_any_fq by assumption. reflexivity.
   - unfold table_ok in H. cbn [tname tschema] in H. apply Bool.andb_true_iff in H as [Hn Hs].
     unfold render_table. cbn [tname tschema].
     unfold read_table_any. rewrite sapp_assoc. rewrite read_any_fq by assumption.
@@ -159,7 +144,8 @@ Proof.
                       (join ", " (map cname (i_columns st))) w).
   split.
   - assert (Htr : itable_truthy (Some t) = true).
-    { destruct t as [s|]; [|reflexivity]. pose proof (idname_nonempty _ Ht) as S. destruct s; [discriminate | reflexivity]. }
+    { destruct t as [s|]; [|reflexivity]. unfold itable_ok in Ht. apply Bool.andb_true_iff in Ht as [_ S].
+      destruct s; [discriminate | reflexivity]. }
     unfold render_index. rewrite Hne, Et, Htr. cbn [negb]. cbv iota. f_equal.
     unfold index_clean, w. rewrite <- !sapp_assoc. rewrite index_head_text.
     destruct (i_wheres st); rewrite ?sapp_nil_r, !sapp_assoc; reflexivity.
